@@ -281,7 +281,12 @@ pub fn extract_tls_signature_from_client_hello(
         match parse_tls_extensions(ext_data) {
             Ok((_remaining, parsed_extensions)) => {
                 for extension in &parsed_extensions {
-                    let ext_type: u16 = TlsExtensionType::from(extension).into();
+                    // tls-parser classifies every 0x?a?a type as GREASE and maps it to 0xfafa;
+                    // keep the wire value so that only real GREASE values are filtered below.
+                    let ext_type: u16 = match extension {
+                        TlsExtension::Grease(wire_type, _) => *wire_type,
+                        _ => TlsExtensionType::from(extension).into(),
+                    };
 
                     // Filter GREASE extensions
                     if !TLS_GREASE_VALUES.contains(&ext_type) {
